@@ -79,6 +79,8 @@ class Sim:
             self.traveller._destination_timestamp_ns = self.wall_ns()
 
     def wall_jump(self, seconds: float) -> None:
+        for w in self.wall_watchers:
+            w()                      # the reading just before the step
         self.skew_ns += int(round(seconds * 1e9))
         self.fire("wall_jump")
         self.rec("wall_jump", seconds)
@@ -722,8 +724,9 @@ class SimContext:
             "text": str(exc)[:200] if exc is not None else None,
             "seq": self.sim.seq, "arrived": len(self.sim.net.arrival_order), "taken": len(self.sim.net.taken),
         })
+        import re
         self.sim.rec("loop-exception", type(exc).__name__ if exc is not None else None,
-                     str(context.get("message"))[:80])
+                     re.sub(r"0x[0-9a-fA-F]+", "0x?", str(context.get("message")))[:80])   # no addresses in the log
 
     def _patch_reader(self):
         import asyncio.streams as st
